@@ -105,7 +105,7 @@ def run(ctx):
 
     # ---------------------------------------------------------------- A. framing: files and blobs
     ncases = 900 if thorough else 110
-    large = 300_000 if thorough else 60_000
+    large = 100_000 if thorough else 60_000
     base = []
     levels = ["n", "0", "1", "3", "-5", "9"] + (["19", "22"] if thorough else [])
     for i in range(ncases):
@@ -144,6 +144,10 @@ def run(ctx):
         mst, g = fields(m) if m is not None else ("ok", None)
         if g is None:
             continue
+        if mst != "ok" and not (mst == "err" and ist == "err"):
+            if "stack-overflow" in m:
+                bump("model_stack_overflow_skipped"); continue
+            mism.append(("model side failed: " + m[:60], il[:300], o[:300], m[:300])); continue
         case = {"cases": [il], "model_case": ml}
         if ist not in ("ok", "err") or (ist == "ok" and "payload" not in f):
             mism.append(("implementation side failed: " + o[:60], il[:300], o[:300], (m or "")[:300])); continue
